@@ -47,7 +47,7 @@ class FloorProtocol(enum.IntEnum):
 
     @classmethod
     def _missing_(cls, value: object) -> t.Optional[enum.Enum]:
-        new_member = int.__new__(cls)
+        new_member = int.__new__(cls, value)  # type: ignore[call-overload]
         new_member._name_ = f"FloorProtocol Unknown 0x{value:04X}"
         new_member._value_ = value  # type: ignore[assignment]
         return cls._value2member_map_.setdefault(value, new_member)
